@@ -6,10 +6,10 @@
 //!
 //! Part 2, implementation -> model: real `ClientAssociation` x `ServerAssociation` (and their async
 //! twins) are established over the in-memory duplex and run every pair of scripts of <= 3 actions per
-//! side under every schedule with <= 1 (quick) / 2 (thorough) deviations; the event trace of every
+//! side (4 in the thorough tier) under every schedule with <= 2 (quick) / 3 (thorough) deviations; the event trace of every
 //! execution must be accepted by the NFA (and end in a state where both sides have ended).
 //!
-//! Part 3, model -> implementation: every path of the TLC graph of <= 6 (quick) / 8 (thorough) steps
+//! Part 3, model -> implementation: every path of the TLC graph of <= 8 steps (quick) / every maximal path (thorough)
 //! is projected to a script pair + schedule and replayed step by step; the events the real code
 //! produces in each step must equal the events the model action stands for.
 #[path = "../twoparty.rs"]
@@ -454,9 +454,9 @@ fn execute(is_async: bool, sr: &[Act], sa: &[Act], ctx: Option<Ctx>, knobs: Knob
 }
 
 fn part2(check: &Check, model: &Model) {
-    let all = scripts(3);
+    let all = scripts(check.pick(3, 4));
     let n = all.len() as u64;
-    let bound = check.pick(1, 2);
+    let bound = check.pick(2, 3);
     check.extra("scripts_per_side", json!(n));
     check.extra("deviation_bound", json!(bound));
     let total_exec = std::sync::atomic::AtomicU64::new(0);
@@ -639,7 +639,7 @@ fn replay_path(is_async: bool, model: &Model, path: &[(u32, usize)]) -> Result<(
 }
 
 fn part3(check: &Check, model: &Model) {
-    let k = check.pick(6, 8);
+    let k = check.pick(8, 12);
     // all paths of <= k steps that cannot be extended within k, as (node, edge index) lists
     let mut paths: Vec<Vec<(u32, usize)>> = vec![];
     fn rec(m: &Model, n: u32, k: usize, acc: &mut Vec<(u32, usize)>, out: &mut Vec<Vec<(u32, usize)>>) {
@@ -713,16 +713,17 @@ fn part3(check: &Check, model: &Model) {
 }
 
 fn main() {
+    tune_allocator();
     let check = Check::from_args("C30", Level::ModelChecking);
     let model = Model::load(check.verif_root());
     check.set_rule(
         "Part 1: TLC explores tla/Assoc.tla (two peers, FIFO channels, <= 4 API actions per side) completely and checks \
          invariants I1-I5 in general and in conforming-SCP mode (one run, the initial state fixes the mode; pre-step; numbers under `tlc`). \
-         Part 2: every pair of scripts of <= 3 actions per side over {send P-DATA, receive, reply to a release request, \
-         release(), abort(); then drop} x {sync, async API} x every schedule with <= 1 (quick) / 2 (thorough) deviations \
+         Part 2: every pair of scripts of <= 3 (quick) / 4 (thorough) actions per side over {send P-DATA, receive, reply to a release request, \
+         release(), abort(); then drop} x {sync, async API} x every schedule with <= 2 (quick) / 3 (thorough) deviations \
          (other peer first, 1-byte delivery, Pending at a write/shutdown); an execution is one evaluation; it is non-trivial \
          when it produced an event trace, distinct by (api, trace); each trace must be a behaviour of the automaton built \
-         from TLC's dumped graph. Part 3: every path of that graph of <= 6 (quick) / 8 (thorough) steps that cannot be \
+         from TLC's dumped graph. Part 3: every path of that graph of <= 8 steps (quick) / every maximal path (thorough, <= 12 steps) that cannot be \
          extended within the bound is replayed step by step on real associations and must produce exactly the model's \
          events in every step (traces_validated_against_impl). `states`/`transitions` are the distinct model states and \
          transitions the Rust side actually drove the implementation through in part 3; TLC's own totals are under `tlc`.",
